@@ -42,6 +42,19 @@ def snap(o):
 
 
 def generate(rnd, tier, index=0):
+    if rnd.random() < 0.05:
+        # large batches in a narrow integer dtype: every value fits (0/1 clicks as uint8 / int8), the per-arm counts and
+        # sums do not (more than 127 / 255 successes in one batch)
+        from ..world import CONTEXT_FREE
+        lp = gen.gen_lp(rnd, names=CONTEXT_FREE)
+        cfg, spare = gen.gen_cfg(rnd, lp=lp, with_np=False, arms_hi=3)
+        rk = "binary" if lp[0] == "ThompsonSampling" else rnd.choice(["binary", "nonneg"])
+        cont = rnd.choice(["ndarray_u8", "ndarray_i8"])
+        ops = []
+        for k in ("fit", "partial_fit"):
+            rows = gen.gen_rows(rnd, cfg["arms"], rnd.randint(300, 700), 1, "exact", rk, False)
+            ops += [{"op": k, "rows": rows, "container": cont}, {"op": "expect", "Q": None, "container": "list"}]
+        return {"cfg": cfg, "ops": ops, "default_np": False, "d": 1}
     cfg, spare = gen.gen_cfg(rnd, with_np=rnd.random() < 0.75, scale=True)
     default_np = False
     if cfg["np"] and cfg["np"][0] == "TreeBandit" and rnd.random() < 0.5:
